@@ -1904,6 +1904,10 @@ namespace
     value selectrandom_array(runtime& runtime, value::cref right)
     {
         auto arr = right.data<d_array>();
+        if (arr->empty())
+        {
+            return {};
+        }
         return arr->at(rand() % arr->size());
     }
     value sleep_scalar(runtime& runtime, value::cref right)
